@@ -67,6 +67,8 @@ def outflow_sig(A):
 
 
 def run(W, chk):
+    from rules.common import borrow
+    borrow(W, chk, "C04", {"PROV-no-lossy-accumulator"}, "fees debited from a reserve leave the contract")
     paths, _ = W.variant_paths(PM, "execute")
     runs = {}
     for which, vp in [("execute", p) for p in paths] + [("reply", None), ("instantiate", None), ("migrate", None)]:
